@@ -137,6 +137,24 @@ def check_value(ctx, d, D, v, vi):
                     ctx.violation(f"builder:{dn}:token-stream-differs:{feature(v)}", {"value": v, "sql": q, "tokens": a[:12]}, case)
         except Exception as e:
             ctx.violation(f"builder:{dn}:raises:{type(e).__name__}", {"value": v, "error": repr(e)[:200]}, case)
+    # --- other literal kinds inside an indented clause: pretty printing must not change the value that is read back ----
+    if vi % 3 == 1 and not skip_str:
+        from sqlglot import parse_one as _p1
+
+        for kind, node in (("unicode", exp.UnicodeString(this=v)), ("national", exp.National(this=v))):
+            vals = []
+            try:
+                for pretty in (False, True):
+                    out = select("a").from_("t").where(exp.column("c").eq(node.copy())).sql(dialect=d, pretty=pretty)
+                    w = _p1(out, read=d).args["where"].this.expression
+                    vals.append((type(w).__name__, w.this if isinstance(w.this, str) else w.sql(dialect=d)))
+            except Exception:
+                ctx.count("literal_kind_slot_not_reparsed")
+                continue
+            ctx.count("evaluations")
+            ctx.count("literal_kind_pretty_checks")
+            if vals[0] != vals[1]:
+                ctx.violation(f"{kind}:{dn}:pretty-changes-value:{feature(v)}", {"value": v, "flat": vals[0], "pretty": vals[1]}, case)
     # --- quoted identifiers ----------------------------------------------------------
     skip_id = (dn == "clickhouse" and "\\" in v)          # listed finding
     if not skip_id:
